@@ -61,8 +61,8 @@ Allowed(fmt, slot, c) ==
 Reserved(fmt) == IF fmt \in {"latex", "beamer", "memoir"} THEN {"\\", "{", "}", "$", "%", "&", "#", "_", "^", "~"} ELSE {"&", "<", ">", "\""}
 
 \* ---- block documents with numbered words ----------------------------------------------------------------------------
-Kinds == {"para", "heading", "h1", "h3", "h4", "list", "quote", "table", "note", "nested", "code", "codel", "link", "emph", "tspan"}
-Need(k) == IF k \in {"list", "table", "nested", "tspan"} THEN 2 ELSE 1            \* words a block shows
+Kinds == {"para", "heading", "h1", "h3", "h4", "list", "quote", "table", "note", "nested", "code", "codel", "link", "emph", "tspan", "tcont", "undefref"}
+Need(k) == IF k = "tcont" THEN 4 ELSE IF k \in {"list", "table", "nested", "tspan"} THEN 2 ELSE 1            \* words a block shows
 RECURSIVE Wd(_), BlockSrc(_, _), DocSrc(_, _), WordsOf(_, _, _), NoteWords(_, _)
 Wd(i) == "W" \o ToString(i) \o "W"
 BlockSrc(k, n) ==
@@ -70,7 +70,10 @@ BlockSrc(k, n) ==
     [] k = "nested" -> "call[^f" \o ToString(n) \o "] after\n\n[^f" \o ToString(n) \o "]: " \o Wd(n) \o " inner[^g" \o ToString(n) \o "]\n\n[^g" \o ToString(n) \o "]: " \o Wd(n + 1) \o "\n\n" [] k = "list" -> "* " \o Wd(n) \o "\n* " \o Wd(n + 1) \o "\n\n"
     [] k = "quote" -> "> " \o Wd(n) \o "\n\n" [] k = "table" -> "| " \o Wd(n) \o " |\n|---|\n| " \o Wd(n + 1) \o " |\n\n"
     [] k = "tspan" -> "| h | i | j |\n|---|---|---|\n| " \o Wd(n) \o " || " \o Wd(n + 1) \o " |\n\n"            \* a cell spanning two columns, followed by another cell
-    [] k = "tspan" -> "| h | i | j |\n|---|---|---|\n| " \o Wd(n) \o " || " \o Wd(n + 1) \o " |\n\n"            \* a cell spanning two columns, followed by another cell
+    \* a bracketed line right after a table is its caption only when it is the whole paragraph: with a second line it is ordinary text
+    [] k = "tcont" -> "| " \o Wd(n) \o " |\n|---|\n| " \o Wd(n + 1) \o " |\n[" \o Wd(n + 2) \o "]\n" \o Wd(n + 3) \o " more\n\n"
+    \* a reference link whose second label is not defined (while the first happens to be) stays literal text
+    [] k = "undefref" -> "[lab" \o ToString(n) \o "][" \o Wd(n) \o "] tail\n\n[lab" \o ToString(n) \o "]: /u\n\n"
     [] k = "note" -> "call[^f" \o ToString(n) \o "] after\n\n[^f" \o ToString(n) \o "]: " \o Wd(n) \o "\n\n" [] k = "code" -> "```\n" \o Wd(n) \o "\n```\n\n" [] k = "codel" -> "```python\n" \o Wd(n) \o "\n```\n\n"
     [] k = "link" -> "[" \o Wd(n) \o "](http://u.rl/)\n\n" [] OTHER -> "*" \o Wd(n) \o "* plain\n\n"
 DocSrc(ks, n) == IF ks = <<>> THEN "" ELSE BlockSrc(Head(ks), n) \o DocSrc(Tail(ks), n + Need(Head(ks)))
